@@ -37,7 +37,7 @@ CHECKS = {
    ref="3.17"),
 
  "C01": dict(
-   text="Explicit-state BFS over builder-call histories of the real SELECT (61-op menu incl. custom templates with reordered / quoted marks, window frames, LIMIT/OFFSET, subqueries in FROM / IN / EXISTS / scalar position, set operations, CTE, VALUES lists, empty-IN rewrite, lock clauses) to depth 4 (quick) / 5 (thorough) and of INSERT / UPDATE / DELETE (upsert variants, UPDATE..FROM, RETURNING expressions, ORDER BY / LIMIT) to depth 4 / 5, every state built on MySQL, Postgres and SQLite. Oracle (never through the inline path): the dialect's reference lexer locates the placeholders outside quoted text - their count must equal the returned values, `?` on MySQL/SQLite, `$1..$n` ascending each once on Postgres - and the returned values must be exactly the tagged values the reference state holds for the clauses that dialect renders, in the order the dialect's grammar reads those clauses (MySQL UPDATE..JOIN..ON before SET, MySQL NULLS emulation writing the expression twice, RETURNING dropped on MySQL, ...).",
+   text="Explicit-state BFS over builder-call histories of the real SELECT (61-op menu incl. custom templates with reordered / quoted marks, window frames, LIMIT/OFFSET, subqueries in FROM / IN / EXISTS / scalar position, set operations, CTE, VALUES lists, empty-IN rewrite, lock clauses) to depth 4 (quick) / 5 (thorough) and of INSERT / UPDATE / DELETE (upsert variants, UPDATE..FROM, RETURNING expressions, ORDER BY / LIMIT) to depth 4 / 5, every state built on MySQL, Postgres and SQLite. Oracle (never through the inline path): the dialect's reference lexer locates the placeholders outside quoted text - their count must equal the returned values, `?` on MySQL/SQLite, `$1..$n` ascending each once on Postgres - and the returned values must be exactly the tagged values the reference state holds for the clauses that dialect renders, in the order the dialect's grammar reads those clauses (MySQL UPDATE..JOIN..ON before SET, MySQL NULLS emulation writing the expression twice, RETURNING dropped on MySQL, ...). Two further families: (a) value pass-through - every Value variant of the C02 pool (all features; about 140 values) in 8 statement positions x 3 backends: build must hand back exactly the values given (same variant and payload, reading order); (b) templates with escaped marks - every sequence of up to 5 items over {?, ??, word} with exactly enough and with one surplus value on the ?-backends: values in order, one mark per value plus one per escape.",
    note="Trusted: the reference lexers and the per-dialect clause reading order in qmodel.rs / dml.rs (SelSpec::tags, DSpec::tags). Nested statements come from a representative pool of 4.",
    technique=TECH+"BFS over builder-call histories with state deduplication, oracle = reference lexer + tagged reference state",
    ref="3.1"),
@@ -72,7 +72,7 @@ CHECKS = {
    technique=TECH+"BFS over builder-call histories with state deduplication, oracle = differential execution on a real SQLite engine against a reference rendering",
    ref="3.7"),
  "C09": dict(
-   text="Explicit-state BFS over builder-call histories restricted to the portable feature subset (SELECT depth 4 / 5: columns, expressions, functions incl. IFNULL/COALESCE, GREATEST/LEAST, CHAR_LENGTH, CASE, custom templates, window functions, DISTINCT, FROM table/alias/subquery/VALUES, joins, WHERE groups, IN-subquery / EXISTS / scalar subquery, GROUP BY, HAVING, UNION/INTERSECT/EXCEPT chains, ORDER BY with NULLS FIRST/LAST and FIELD order, LIMIT/OFFSET, CTE; INSERT VALUES/SELECT, UPDATE SET/WHERE, DELETE WHERE depth 4 / 5). In every state the MySQL and Postgres renderings (inline and bound) are transliterated token by token through the reference lexers into SQLite spelling - identifier quotes, placeholder style, literal syntax, VALUES ROW, set-operation parentheses (regrouped by the SQL-standard INTERSECT precedence that MySQL 8 and PostgreSQL implement) and the documented function-name substitutions, nothing else - and all three are executed on identical SQLite databases; result rows (ordered under ORDER BY) and final table contents must be pairwise identical.",
+   text="Explicit-state BFS over builder-call histories restricted to the portable feature subset (SELECT depth 4 / 5: columns, expressions, functions incl. IFNULL/COALESCE, GREATEST/LEAST, CHAR_LENGTH, CASE, custom templates, window functions, DISTINCT, FROM table/alias/subquery/VALUES, joins, WHERE groups, IN-subquery / EXISTS / scalar subquery, GROUP BY, HAVING, UNION/INTERSECT/EXCEPT chains, ORDER BY with NULLS FIRST/LAST and FIELD order, LIMIT/OFFSET, CTE; INSERT VALUES/SELECT, UPDATE SET/WHERE, DELETE WHERE depth 4 / 5). In every state the MySQL and Postgres renderings (inline and bound) are transliterated token by token through the reference lexers into SQLite spelling - identifier quotes, placeholder style, literal syntax, VALUES ROW, set-operation parentheses (regrouped by the SQL-standard INTERSECT precedence that MySQL 8 and PostgreSQL implement) and the documented function-name substitutions, nothing else - and all three are executed on identical SQLite databases; result rows (ordered under ORDER BY) and final table contents must be pairwise identical. In addition every expression tree with up to 2 (quick) / 3 (thorough) operator nodes over the 16 operators that mean the same on the three engines (+ - * %, shifts, bit operators, comparisons, AND / OR) plus NOT and IS [NOT] NULL is rendered for each backend, each text is read by its own dialect's reference grammar, printed fully parenthesised and evaluated by the engine over a value table: the three readings must evaluate alike.",
    note="Trusted: the transliterator (token-level, 150 lines) and the reference lexers; semantics of the MySQL / Postgres text are those of SQLite after transliteration (LIKE case rules, type affinity); states whose explicit reference rendering SQLite rejects, and MySQL's NULLS emulation inside compound selects (not executable on SQLite), are out of domain and counted. One genuine defect is a known finding (INTERSECT precedence, 2 keys).",
    technique=TECH+"BFS over builder-call histories, oracle = pairwise differential execution of the three transliterated renderings on a real SQLite engine",
    ref="3.9"),
@@ -87,7 +87,7 @@ CHECKS = {
    technique=TECH+"trie of all templates over an alphabet up to a length bound x value-list lengths, oracle = reference expander",
    ref="3.11"),
  "C12": dict(
-   text="Exhaustive enumeration of value domains through the real From/ValueType/Nullable/tuple impls: complete bool, i8, u8, i16, u16, char; all 2^32 bit patterns of f32/i32/u32 (thorough; <=3-bit grid in quick); bit-pattern grids for 64-bit types; all strings/byte strings over a 6-symbol alphabet up to length 4; boundary grids for chrono/time/uuid/decimal/json/ip/mac/vector/array types; every (source variant, target type) pair incl. Option<T>; all 3^n tuples for arity 1..12. Run in the `plain` and the `full` (hashable-value) build. Oracle: identity (bit identity for floats), NULL-of-own-variant, Err on mismatch.",
+   text="Exhaustive enumeration of value domains through the real From/ValueType/Nullable/tuple impls: complete bool, i8, u8, i16, u16, char; all 2^32 bit patterns of f32/i32/u32 (thorough; <=3-bit grid in quick); bit-pattern grids for 64-bit types; all strings/byte strings over a 6-symbol alphabet up to length 4; boundary grids for chrono/time/uuid/decimal/json/ip/mac/vector/array types; every (source variant, target type) pair incl. Option<T>; all 3^n tuples for arity 1..12. Run in the `plain` and the `full` (hashable-value) build. Oracle: identity (bit identity for floats), NULL-of-own-variant, Err on mismatch. Arrays: every ordered pair of distinct element types (9 types) x lengths 0, 1, 2 must be rejected as Vec<T> and as Option<Vec<T>>.",
    note="Trusted: the independent variant<->type table in the harness. 64-bit and feature-type domains are grids, not complete.",
    technique=TECH+"complete / grid enumeration of value domains, oracle = identity",
    ref="3.12"),
